@@ -549,6 +549,7 @@ fn gen_concurrent(case_seed: u64, tier: Tier, id: &str) -> Plan {
 		Committing,
 	}
 	let mut st = vec![St::Idle; n_actors as usize];
+	let mut left = vec![0u32; n_actors as usize];
 	let mut steps = Vec::new();
 	for _ in 0..total {
 		let a = rng.below(n_actors as u64) as u8;
@@ -557,22 +558,31 @@ fn gen_concurrent(case_seed: u64, tier: Tier, id: &str) -> Plan {
 				let mode = if id == "C04" && rng.chance(1, 4) { ModeS::WriteOnly } else { ModeS::ReadWrite };
 				steps.push(Step::Begin { a, mode });
 				st[a as usize] = St::Open;
+				left[a as usize] = budget;
 			}
 			St::Open => {
-				if rng.chance(3, 5) {
+				if rng.chance(3, 5) && left[a as usize] >= 140 {
 					let k = rng.below(nkeys as u64) as u16;
 					if id == "C05" && rng.chance(1, 3) {
 						// bigger batches with duplicate keys
 						let n = rng.range(2, 8);
-						let each = (budget / n as u32).max(70) - 60;
+						let each = (left[a as usize] / n as u32).max(70) - 60;
 						for _ in 0..n {
+							if left[a as usize] < 70 {
+								break;
+							}
 							let k = rng.below(nkeys as u64) as u16;
-							steps.push(Step::Set { a, k, v: tags.next(each.min(value_len(&mut rng)).max(8)), ts: None });
+							let len = each.min(value_len(&mut rng)).max(8).min(left[a as usize] - 60);
+							steps.push(Step::Set { a, k, v: tags.next(len), ts: None });
+							left[a as usize] = left[a as usize].saturating_sub(60 + len);
 						}
 					} else if rng.chance(1, 8) {
 						steps.push(Step::Delete { a, k, ts: None });
+						left[a as usize] = left[a as usize].saturating_sub(60);
 					} else {
-						steps.push(Step::Set { a, k, v: tags.next(value_len(&mut rng).min(budget / 2).max(8)), ts: None });
+						let len = value_len(&mut rng).min(left[a as usize] / 2).max(8).min(left[a as usize] - 60);
+						steps.push(Step::Set { a, k, v: tags.next(len), ts: None });
+						left[a as usize] = left[a as usize].saturating_sub(60 + len);
 					}
 				} else {
 					steps.push(Step::Commit { a, sync: false });
